@@ -112,8 +112,11 @@ def gen_pf_static_cases(ctx, n, modes=('s',), wait_choices=(1,), kinds=range(8))
 
 
 def pf_line(c):
-    return 'pf %d %d %d %s %d %d %d %d %d %d %d %d' % (c['kn'], c['s'], c['e'], c['mode'], c['chunk'], c['N'], c['maxT'],
+    line = 'pf %d %d %d %s %d %d %d %d %d %d %d %d' % (c['kn'], c['s'], c['e'], c['mode'], c['chunk'], c['N'], c['maxT'],
                                                       c['minItems'], c['g'], c['wait'], c.get('rdv', 0), c.get('reuse', 0))
+    if c.get('inpool', 0):
+        line += ' %d' % c['inpool']      # parallel_for issued from the pool worker with ring index inpool-1
+    return line
 
 
 def parse_pf(line):
@@ -126,7 +129,9 @@ def parse_pf(line):
     v = t[2:]
     chunks = [(int(v[3 * i]), int(v[3 * i + 1]), int(v[3 * i + 2])) for i in range(n)]
     m = re.search(r'maxconc (\d+) stateconc (\d+) nstates (\d+)', right)
-    return {'chunks': chunks, 'maxconc': int(m.group(1)), 'stateconc': int(m.group(2)), 'nstates': int(m.group(3))}
+    mr = re.search(r'ring (-?\d+)', right)
+    return {'chunks': chunks, 'maxconc': int(m.group(1)), 'stateconc': int(m.group(2)), 'nstates': int(m.group(3)),
+            'ring': int(mr.group(1)) if mr else -1}
 
 
 def coq_cfg(c):
@@ -175,6 +180,9 @@ def correspond_static(ctx, pid):
     npf = 1200 if ctx.quick else 15000
     sc = gen_sc_cases(ctx, nsc)
     pf = gen_pf_static_cases(ctx, npf)
+    for c in pf:                               # a third of the cases: parallel_for called from a worker of the pool under test
+        if c['N'] > 0 and ctx.rng.random() < 0.33:
+            c['inpool'] = ctx.rng.randint(1, c['N'])
     lines = ['scg %d %d %d' % c for c in sc] + [pf_line(c) for c in pf]
     outs = run_harness(exe, lines)
     sc_terms, pf_terms, pf_kept = [], [], []
@@ -326,6 +334,50 @@ def gen_pf_cases(ctx, n, modes=('s', 'a', 'c'), waits=(0, 1), pools=(0, 1, 2, 3,
         cases.append({'kn': kn, 's': s, 'e': e, 'mode': mode, 'chunk': chunk, 'N': N, 'maxT': maxT, 'minItems': minItems,
                       'g': g, 'wait': wait, 'rdv': 0, 'reuse': 0})
     return cases
+
+
+def gen_pf_inpool_cases(ctx, n, gmin=1, modes=('s', 'a', 'c')):
+    """parallel_for issued FROM A TASK RUNNING ON A WORKER of the pool under test (field inpool = ring index + 1): systematically every
+    pool size 1..7 x every ring index 0..N-1 x mode x wait, then random.  On the static path with wait=true the caller then takes
+    chunk `ring` instead of the last one and the scheduler index -> chunk index remap is exercised for every position."""
+    r = ctx.rng
+    combos = [(N, ring, mode, wait) for N in range(1, 8) for ring in range(N) for mode in modes for wait in (1, 0)]
+    cases = []
+    i = 0
+    while len(cases) < n:
+        if i < len(combos):
+            N, ring, mode, wait = combos[i]
+        else:
+            N = r.randint(1, 7)
+            ring, mode, wait = r.randrange(N), r.choice(list(modes)), r.choice([1, 1, 0])
+        i += 1
+        c = gen_pf_cases(ctx, 1, modes=(mode,), waits=(wait,), pools=(N,), gmin=gmin)[0]
+        if mode == 's' and i % 3 != 0:          # enough items and threads for a chunk per worker, so that ring < numThreads - 1 occurs
+            kn = c['kn']
+            size = r.randint(N + 1, 120 if KINDS[kn][0] == 8 else 3000)
+            c['g'] = max(gmin, r.choice([1, 1, 2, 3, 8]))
+            c['s'] = max(kmin(kn), min(c['s'], kmax(kn) - size))
+            c['e'] = c['s'] + size
+            c['maxT'] = r.choice([1 << 31, N + 1, N + 2, 1000])
+            c['minItems'] = 1
+        c['inpool'] = ring + 1
+        cases.append(c)
+    return cases
+
+
+def ring_coverage(cases, results_raw):
+    """(N, ring) pairs from which the implementation reported that parallel_for was actually called; misses = wanted ring not obtained"""
+    seen, miss = set(), 0
+    for c, raw in zip(cases, results_raw):
+        if not c.get('inpool') or not raw or not raw.startswith('pf '):
+            continue
+        m = re.search(r'ring (-?\d+)', raw)
+        got = int(m.group(1)) if m else -1
+        if got == (c['inpool'] - 1) % max(1, c['N']):
+            seen.add((c['N'], got))
+        else:
+            miss += 1
+    return seen, miss
 
 
 def gen_pf_fullrange_cases(ctx, n):
